@@ -32,6 +32,9 @@ func ParseProgram(fsys fs.FS) (*ast.Tree, error) {
 	main := ast.NewImport(nil, nil, "main", nil)
 	imports := []*ast.Import{main}
 
+	// importers maps an import declaration to the path of the file that contains it.
+	importers := map[*ast.Import]string{}
+
 	for len(imports) > 0 {
 
 		last := len(imports) - 1
@@ -57,8 +60,7 @@ func ParseProgram(fsys fs.FS) (*ast.Tree, error) {
 			if last == 0 {
 				return nil, errors.New("cannot find main package")
 			}
-			path := imports[last-1].Tree.Path
-			return nil, &SyntaxError{path, *n.Position, fmt.Sprintf("cannot find package %q", n.Path)}
+			return nil, &SyntaxError{importers[n], *n.Position, fmt.Sprintf("cannot find package %q", n.Path)}
 		}
 		trees[n.Path] = n.Tree
 
@@ -99,6 +101,7 @@ func ParseProgram(fsys fs.FS) (*ast.Tree, error) {
 			if !strings.HasPrefix(imp.Path, modPrefix) {
 				continue
 			}
+			importers[imp] = n.Tree.Path
 			// Append the imports in reverse order.
 			if last == len(imports)-1 {
 				imports = append(imports, imp)
